@@ -7,6 +7,7 @@ _NAMES = {
     'solver_parser': 'solver',
     'solver_lattice': 'solver',
     'solver_seq': 'solver',
+    'solver_labels': 'solver',
     'multi': 'multi',
     'frame': 'frame',
     'tracer': 'tracer',
